@@ -175,6 +175,7 @@ fn subject_has_dots<S: Subject>() -> bool {
 
 fn add<S: Subject>(jobs: &mut Vec<Box<dyn JobT>>, disc: Disc, q: u64, t: u64) {
     let pc = PlanCfg::new(Weights::ops_only()).steps(6, 26).editors(2, 4).observers(0, 1);
+    let pc = pc.long_share(S::LONG);
     let ctx = Ctx::new(disc).newest();
     jobs.push(mk_job(format!("{}/{:?}/validate every op at every step", S::name(), disc), q, t, pc, ctx, check_validate::<S>).floor("nontrivial", 0.2).boxed());
 }
@@ -183,10 +184,14 @@ pub fn property() -> Property {
     let mut jobs: Vec<Box<dyn JobT>> = Vec::new();
     add::<SVClock>(&mut jobs, Disc::Any, 12000, 100_000);
     add::<SOrswot>(&mut jobs, Disc::Fifo, 15000, 150_000);
+    add::<SOrswotBig>(&mut jobs, Disc::Fifo, 3750, 37500);
     add::<SList>(&mut jobs, Disc::Causal, 12000, 100_000);
     add::<MapOrswot>(&mut jobs, Disc::Causal, 15000, 150_000);
+    add::<MapOrswotBig>(&mut jobs, Disc::Causal, 3750, 37500);
     add::<MapOrswot>(&mut jobs, Disc::Fifo, 12000, 100_000);
+    add::<MapOrswotBig>(&mut jobs, Disc::Fifo, 3000, 25000);
     add::<MapMVReg>(&mut jobs, Disc::Causal, 15000, 150_000);
+    add::<MapMVRegBig>(&mut jobs, Disc::Causal, 3750, 37500);
     add::<MapMapMVReg>(&mut jobs, Disc::Causal, 12000, 100_000);
     add::<SMerkle>(&mut jobs, Disc::Any, 12000, 100_000);
     add::<SLww>(&mut jobs, Disc::Any, 6000, 40_000);
